@@ -141,7 +141,7 @@ theorem validate_eq (env : Env) (st : VState) : validate L env st = validateRaw 
 def crlSpec (env : Env) (raw : RawCrl) : Res EffCrl :=
   (optRes (parseSignatureValidationMode raw.sigMode)).bind fun sg =>
   (optRes (parseStorageType raw.storage)).bind fun st =>
-  (parseDurationField env raw.interval 1800000000000).bind fun iv =>
+  (parseDurationField env raw.interval 1800000000000 true).bind fun iv =>
   (if raw.signers.all env.certOk then Res.ok () else Res.error).bind fun _ =>
   (match raw.cdp with
    | some c => (optRes (parseCRLFetchMode c.fetchMode)).map fun m => ({ fetchMode := m, strict := c.strict } : EffCdp)
@@ -153,11 +153,11 @@ theorem parseCrl_closed (env : Env) (raw : RawCrl) : parseCrl L env raw = crlSpe
   unfold crlSpec
   simp only [parseCrl, L_crlSteps, runCrlSteps, crlStep, crlUnparsed,
     show L.parseSigMode = parseSignatureValidationMode from rfl, show L.parseStorage = parseStorageType from rfl,
-    show L.parseFetchMode = parseCRLFetchMode from rfl, show L.defaultIntervalNs = 1800000000000 from rfl,
+    show L.parseFetchMode = parseCRLFetchMode from rfl, show L.defaultIntervalNs = 1800000000000 from rfl, show L.intervalMustBePositive = true from rfl,
     show L.nilCdpDefault = { fetchMode := .actively, strict := false } from rfl]
   cases parseSignatureValidationMode raw.sigMode <;> simp only [optRes, Res.map_ok, Res.map_error, Res.bind_ok, Res.bind_error]
   cases parseStorageType raw.storage <;> simp only [optRes, Res.map_ok, Res.map_error, Res.bind_ok, Res.bind_error]
-  cases parseDurationField env raw.interval 1800000000000 <;> simp only [Res.map_ok, Res.map_error, Res.map_panic, Res.bind_ok, Res.bind_error, Res.bind_panic]
+  cases parseDurationField env raw.interval 1800000000000 true <;> simp only [Res.map_ok, Res.map_error, Res.map_panic, Res.bind_ok, Res.bind_error, Res.bind_panic]
   cases raw.signers.all env.certOk <;> simp only [if_true, if_false, Bool.false_eq_true, Res.bind_ok, Res.bind_error]
   rcases raw.cdp with _ | c <;> simp only [Res.map_ok]
   cases parseCRLFetchMode c.fetchMode <;> simp only [optRes, Res.map_ok, Res.map_error]
@@ -184,21 +184,24 @@ theorem validate_closed (env : Env) (raw : RawCfg) (m : Mode) : validateRaw env 
   all_goals (cases env.path c.workDir <;> simp)
 
 def ocspSpec (env : Env) (raw : RawOcsp) : Res EffOcsp :=
-  (parseDurationField env raw.cacheDuration 0).bind fun cd =>
+  (parseDurationField env raw.cacheDuration 0 false).bind fun cd =>
   (if raw.responders.all env.certOk then Res.ok () else Res.error).map fun _ =>
   { cacheNs := cd, responders := raw.responders, aiaStrict := raw.aiaStrict }
 
 theorem parseOcsp_closed (env : Env) (raw : RawOcsp) : parseOcsp L env raw = ocspSpec env raw := by
   unfold ocspSpec
   simp only [parseOcsp, show L.ocspSteps = [.cacheDuration, .responders] from rfl, runOcspSteps, ocspStep,
-    show L.defaultCacheNs = 0 from rfl]
-  cases parseDurationField env raw.cacheDuration 0 <;> simp only [Res.map_ok, Res.map_error, Res.map_panic, Res.bind_ok, Res.bind_error, Res.bind_panic]
+    show L.defaultCacheNs = 0 from rfl, show L.cacheMustBePositive = false from rfl]
+  cases parseDurationField env raw.cacheDuration 0 false <;> simp only [Res.map_ok, Res.map_error, Res.map_panic, Res.bind_ok, Res.bind_error, Res.bind_panic]
   cases raw.responders.all env.certOk <;> simp
 
-theorem parseDurationField_ne_panic (env : Env) (s : String) (d : Int) : parseDurationField env s d ≠ .panic := by
+theorem parseDurationField_ne_panic (env : Env) (s : String) (d : Int) (pos : Bool) :
+    parseDurationField env s d pos ≠ .panic := by
   unfold parseDurationField
   split
-  · cases env.dur s <;> simp
+  · cases env.dur s
+    · simp
+    · simp only; split <;> simp
   · simp
 
 /-! ### Closed form of Provision and of the two load paths -/
@@ -278,8 +281,8 @@ theorem crlSpec_ne_panic (env : Env) (raw : RawCrl) : crlSpec env raw ≠ .panic
   unfold crlSpec
   cases parseSignatureValidationMode raw.sigMode <;> simp only [optRes, Res.bind_ok, Res.bind_error, ne_eq, reduceCtorEq, not_false_eq_true]
   cases parseStorageType raw.storage <;> simp only [optRes, Res.bind_ok, Res.bind_error, ne_eq, reduceCtorEq, not_false_eq_true]
-  have := parseDurationField_ne_panic env raw.interval 1800000000000
-  rcases hd : parseDurationField env raw.interval 1800000000000 with d | _ | _
+  have := parseDurationField_ne_panic env raw.interval 1800000000000 true
+  rcases hd : parseDurationField env raw.interval 1800000000000 true with d | _ | _
   · simp only [Res.bind_ok]
     cases raw.signers.all env.certOk
     · simp
@@ -291,8 +294,8 @@ theorem crlSpec_ne_panic (env : Env) (raw : RawCrl) : crlSpec env raw ≠ .panic
 
 theorem ocspSpec_ne_panic (env : Env) (raw : RawOcsp) : ocspSpec env raw ≠ .panic := by
   unfold ocspSpec
-  have := parseDurationField_ne_panic env raw.cacheDuration 0
-  rcases hd : parseDurationField env raw.cacheDuration 0 with d | _ | _
+  have := parseDurationField_ne_panic env raw.cacheDuration 0 false
+  rcases hd : parseDurationField env raw.cacheDuration 0 false with d | _ | _
   · cases raw.responders.all env.certOk <;> simp
   · simp
   · exact absurd hd this
@@ -321,14 +324,28 @@ theorem length_pos_iff_ne_empty (s : String) : s.length > 0 ↔ s ≠ "" := by
     · exact absurd (String.length_eq_zero_iff.mp hz) h
     · exact hp
 
-theorem parseDurationField_ok_iff (env : Env) (s : String) (dflt d : Int) :
-    parseDurationField env s dflt = .ok d ↔ (s = "" ∧ d = dflt) ∨ (s ≠ "" ∧ env.dur s = some d) := by
+theorem parseDurationField_ok_iff (env : Env) (s : String) (dflt d : Int) (pos : Bool) :
+    parseDurationField env s dflt pos = .ok d ↔
+      (s = "" ∧ d = dflt) ∨ (s ≠ "" ∧ env.dur s = some d ∧ (pos = true → 0 < d)) := by
   unfold parseDurationField
   by_cases h : s = ""
   · subst h; simp [eq_comm]
   · have : s.length > 0 := (length_pos_iff_ne_empty s).mpr h
     simp only [this, if_true, h, false_and, false_or, ne_eq, not_false_eq_true, true_and]
-    cases env.dur s <;> simp
+    cases hd : env.dur s with
+    | none => simp
+    | some d' =>
+      cases pos
+      · simp
+      · by_cases hp : d' ≤ 0
+        · simp only [Bool.true_and, hp, decide_true, if_true, Option.some.injEq, forall_const]
+          constructor
+          · intro h; cases h
+          · rintro ⟨rfl, h⟩; omega
+        · simp only [Bool.true_and, hp, decide_false, Bool.false_eq_true, if_false, Res.ok.injEq, Option.some.injEq, forall_const]
+          constructor
+          · rintro rfl; exact ⟨rfl, by omega⟩
+          · rintro ⟨rfl, _⟩; rfl
 
 
 theorem optRes_eq_ok {α : Type} (o : Option α) (a : α) : optRes o = .ok a ↔ o = some a := by
@@ -338,13 +355,14 @@ theorem optRes_eq_ok {α : Type} (o : Option α) (a : α) : optRes o = .ok a ↔
 theorem crlSpec_ok (env : Env) (raw : RawCrl) (ec : EffCrl) (h : crlSpec env raw = .ok ec) :
     ec.workDir = raw.workDir ∧ ec.urls = raw.urls ∧ ec.files = raw.files ∧ ec.signers = raw.signers ∧
     parseSignatureValidationMode raw.sigMode = some ec.sigMode ∧ parseStorageType raw.storage = some ec.storage ∧
-    ((raw.interval = "" ∧ ec.intervalNs = 1800000000000) ∨ (raw.interval ≠ "" ∧ env.dur raw.interval = some ec.intervalNs)) ∧
+    ((raw.interval = "" ∧ ec.intervalNs = 1800000000000) ∨
+      (raw.interval ≠ "" ∧ env.dur raw.interval = some ec.intervalNs ∧ 0 < ec.intervalNs)) ∧
     raw.signers.all env.certOk = true ∧
     (match raw.cdp with
      | none => ec.cdp = some ⟨.actively, false⟩
      | some d => ∃ m, parseCRLFetchMode d.fetchMode = some m ∧ ec.cdp = some ⟨m, d.strict⟩) := by
   unfold crlSpec at h
-  simp only [Res.bind_eq_ok, Res.map_eq_ok, optRes_eq_ok, parseDurationField_ok_iff] at h
+  simp only [Res.bind_eq_ok, Res.map_eq_ok, optRes_eq_ok, parseDurationField_ok_iff, forall_const] at h
   obtain ⟨sg, hsg, st, hst, iv, hiv, u, hu, cdp, hcdp, rfl⟩ := h
   refine ⟨rfl, rfl, rfl, rfl, hsg, hst, hiv, ?_, ?_⟩
   · cases hc : raw.signers.all env.certOk <;> simp_all
@@ -357,7 +375,7 @@ theorem ocspSpec_ok (env : Env) (raw : RawOcsp) (eo : EffOcsp) (h : ocspSpec env
     ((raw.cacheDuration = "" ∧ eo.cacheNs = 0) ∨ (raw.cacheDuration ≠ "" ∧ env.dur raw.cacheDuration = some eo.cacheNs)) ∧
     raw.responders.all env.certOk = true := by
   unfold ocspSpec at h
-  simp only [Res.bind_eq_ok, Res.map_eq_ok, parseDurationField_ok_iff] at h
+  simp only [Res.bind_eq_ok, Res.map_eq_ok, parseDurationField_ok_iff, Bool.false_eq_true, false_imp_iff, and_true] at h
   obtain ⟨cd, hcd, u, hu, rfl⟩ := h
   refine ⟨rfl, rfl, hcd, ?_⟩
   cases hc : raw.responders.all env.certOk <;> simp_all
@@ -442,12 +460,13 @@ theorem provisionSpec_ok_iff (env : Env) (raw : RawCfg) (chk : Bool) (e : Effect
         exact (crlProvision_ok_iff env ec).mpr (hcr hce ec h1)
 
 
-/-- A configured value no parser accepts: wrong enum string, unparsable duration, unreadable certificate file. -/
+/-- A configured value no parser accepts: wrong enum string, unparsable duration, update interval that is not
+positive, unreadable certificate file. -/
 def InvalidValue (env : Env) (raw : RawCfg) : Prop :=
   parseMode raw.mode = none ∨
   (∃ c, raw.crl = some c ∧
     (parseStorageType c.storage = none ∨ parseSignatureValidationMode c.sigMode = none ∨
-     (c.interval ≠ "" ∧ env.dur c.interval = none) ∨ c.signers.all env.certOk = false ∨
+     (c.interval ≠ "" ∧ ∀ d, env.dur c.interval = some d → d ≤ 0) ∨ c.signers.all env.certOk = false ∨
      ∃ d, c.cdp = some d ∧ parseCRLFetchMode d.fetchMode = none)) ∨
   (∃ o, raw.ocsp = some o ∧ ((o.cacheDuration ≠ "" ∧ env.dur o.cacheDuration = none) ∨ o.responders.all env.certOk = false))
 
@@ -462,9 +481,9 @@ theorem invalid_not_loaded (env : Env) (raw : RawCfg) (e : Effective) (hi : Inva
     rcases hv with hv | hv | ⟨hne, hv⟩ | hv | ⟨d, hd, hv⟩
     · rw [hv] at a6; exact absurd a6 (by simp)
     · rw [hv] at a5; exact absurd a5 (by simp)
-    · rcases a7 with ⟨he, _⟩ | ⟨_, hs⟩
+    · rcases a7 with ⟨he, _⟩ | ⟨_, hs, hp⟩
       · exact hne he
-      · rw [hv] at hs; exact absurd hs (by simp)
+      · have := hv _ hs; omega
     · rw [hv] at a8; exact absurd a8 (by simp)
     · rw [hd] at a9
       obtain ⟨m, hm, _⟩ := a9
@@ -596,26 +615,27 @@ theorem applyLeaf_comm (a1 a2 : Act CrlField) (hf : actField a1 ≠ actField a2)
 
 def ValidCrl (env : Env) (c : RawCrl) : Prop :=
   parseStorageType c.storage ≠ none ∧ parseSignatureValidationMode c.sigMode ≠ none ∧
-  (c.interval = "" ∨ env.dur c.interval ≠ none) ∧ c.signers.all env.certOk = true ∧
+  (c.interval = "" ∨ ∃ d, env.dur c.interval = some d ∧ 0 < d) ∧ c.signers.all env.certOk = true ∧
   (∀ d, c.cdp = some d → parseCRLFetchMode d.fetchMode ≠ none)
 
 def ValidOcsp (env : Env) (o : RawOcsp) : Prop :=
   (o.cacheDuration = "" ∨ env.dur o.cacheDuration ≠ none) ∧ o.responders.all env.certOk = true
 
-theorem parseDurationField_isOk (env : Env) (s : String) (dflt : Int) (h : s = "" ∨ env.dur s ≠ none) :
-    ∃ d, parseDurationField env s dflt = .ok d := by
+theorem parseDurationField_isOk (env : Env) (s : String) (dflt : Int) (pos : Bool)
+    (h : s = "" ∨ ∃ d, env.dur s = some d ∧ (pos = true → 0 < d)) :
+    ∃ d, parseDurationField env s dflt pos = .ok d := by
   by_cases he : s = ""
-  · exact ⟨dflt, (parseDurationField_ok_iff env s dflt dflt).mpr (.inl ⟨he, rfl⟩)⟩
-  · rcases h with h | h
+  · exact ⟨dflt, (parseDurationField_ok_iff env s dflt dflt pos).mpr (.inl ⟨he, rfl⟩)⟩
+  · rcases h with h | ⟨d, hd, hp⟩
     · exact absurd h he
-    · obtain ⟨d, hd⟩ := Option.ne_none_iff_exists'.mp h
-      exact ⟨d, (parseDurationField_ok_iff env s dflt d).mpr (.inr ⟨he, hd⟩)⟩
+    · exact ⟨d, (parseDurationField_ok_iff env s dflt d pos).mpr (.inr ⟨he, hd, hp⟩)⟩
 
 theorem crlSpec_ok_of_valid (env : Env) (c : RawCrl) (h : ValidCrl env c) : ∃ ec, crlSpec env c = .ok ec := by
   obtain ⟨h1, h2, h3, h4, h5⟩ := h
   obtain ⟨st, hst⟩ := Option.ne_none_iff_exists'.mp h1
   obtain ⟨sg, hsg⟩ := Option.ne_none_iff_exists'.mp h2
-  obtain ⟨iv, hiv⟩ := parseDurationField_isOk env c.interval 1800000000000 h3
+  obtain ⟨iv, hiv⟩ := parseDurationField_isOk env c.interval 1800000000000 true
+    (h3.imp id (fun ⟨d, hd, hp⟩ => ⟨d, hd, fun _ => hp⟩))
   unfold crlSpec
   simp only [hst, hsg, hiv, h4, optRes, Res.bind_ok, if_true]
   rcases hc : c.cdp with _ | d
@@ -626,7 +646,10 @@ theorem crlSpec_ok_of_valid (env : Env) (c : RawCrl) (h : ValidCrl env c) : ∃ 
 
 theorem ocspSpec_ok_of_valid (env : Env) (o : RawOcsp) (h : ValidOcsp env o) : ∃ eo, ocspSpec env o = .ok eo := by
   obtain ⟨h1, h2⟩ := h
-  obtain ⟨cd, hcd⟩ := parseDurationField_isOk env o.cacheDuration 0 h1
+  obtain ⟨cd, hcd⟩ := parseDurationField_isOk env o.cacheDuration 0 false
+    (h1.imp id (fun h => by
+      obtain ⟨d, hd⟩ := Option.ne_none_iff_exists'.mp h
+      exact ⟨d, hd, fun hf => absurd hf (by simp)⟩))
   unfold ocspSpec
   simp only [hcd, h2, Res.bind_ok, if_true, Res.map_ok]
   exact ⟨_, rfl⟩
@@ -636,9 +659,59 @@ def CrlReady (env : Env) (raw : RawCfg) : Prop :=
   ∃ c, raw.crl = some c ∧ c.workDir ≠ "" ∧ env.path c.workDir = .dir ∧
     c.urls.all env.crlOk = true ∧ c.files.all env.crlOk = true
 
-/-- The update interval, when given, is a positive duration. -/
-def PositiveInterval (env : Env) (raw : RawCfg) : Prop :=
-  ∀ c, raw.crl = some c → c.interval = "" ∨ ∃ d, env.dur c.interval = some d ∧ 0 < d
 
+
+/-! ### No panic -/
+
+theorem crlSpec_interval_pos (env : Env) (c : RawCrl) (ec : EffCrl) (h : crlSpec env c = .ok ec) : 0 < ec.intervalNs := by
+  obtain ⟨_, _, _, _, _, _, a7, _, _⟩ := crlSpec_ok env c ec h
+  rcases a7 with ⟨_, h⟩ | ⟨_, _, hp⟩
+  · rw [h]; decide
+  · exact hp
+
+theorem validateSpec_ne_panic (env : Env) (raw : RawCfg) (m : Mode) : validateSpec env raw m ≠ .panic := by
+  unfold validateSpec
+  cases crlEnabled m <;> simp
+  rcases raw.crl with _ | c <;> simp
+  by_cases hw : c.workDir = "" <;> simp [hw]
+  cases env.path c.workDir <;> simp
+
+theorem crlProvision_ne_panic (env : Env) (ec : EffCrl) (h : 0 < ec.intervalNs) : crlProvision env ec ≠ .panic := by
+  unfold crlProvision
+  split
+  · simp
+  · split
+    · omega
+    · simp
+
+/-- With a CRL checker object in place (JSON path always; Caddyfile path whenever the mode enables CRL checking),
+`Provision` never panics. -/
+theorem provisionSpec_ne_panic (env : Env) (raw : RawCfg) : provisionSpec env raw true ≠ .panic := by
+  unfold provisionSpec
+  simp only [validate_closed, parseCrl_closed, parseOcsp_closed]
+  apply Res.bind_ne_panic
+  · rcases raw.crl with _ | c
+    · simp
+    · exact Res.map_ne_panic _ _ (crlSpec_ne_panic env c)
+  intro crlP hA
+  apply Res.bind_ne_panic
+  · rcases raw.ocsp with _ | o
+    · simp
+    · exact Res.map_ne_panic _ _ (ocspSpec_ne_panic env o)
+  intro ocspP _
+  apply Res.bind_ne_panic
+  · cases parseMode raw.mode <;> simp [optRes]
+  intro m _
+  apply Res.bind_ne_panic _ _ (validateSpec_ne_panic env raw m)
+  intro u hv
+  apply Res.map_ne_panic
+  cases hce : crlEnabled m
+  · simp
+  · simp only [if_true]
+    obtain ⟨c, hc, _, _⟩ := (validateSpec_ok_iff env raw m).mp hv hce
+    rw [hc] at hA
+    simp only [Res.map_eq_ok] at hA
+    obtain ⟨ec, hec, rfl⟩ := hA
+    exact crlProvision_ne_panic env ec (crlSpec_interval_pos env c ec hec)
 
 end Crv.Config.Closed
